@@ -16,8 +16,14 @@
    * [xml_unescape]: the replacement text of those references; [xml_eol]: the
      end-of-line normalisation of section 2.11, which an XML processor performs
      BEFORE parsing: a literal CR LF or lone CR reaches the application as LF,
-     a CR written as "&#13;" reaches it as CR. *)
-From Coq Require Import NArith List Bool.
+     a CR written as "&#13;" reaches it as CR.
+   * [svg_spec_rows]: what the property demands of the spans, concretely: from the
+     styled runs of Spec/Sgr and the configured default colours, per line, the
+     (class list, background class, text) pieces -- invert swapping foreground and
+     background against the defaults, the documented class names, INVERT and BLINK
+     without a class. *)
+From Coq Require Import NArith List Bool Strings.String Strings.Ascii.
+From AV Require Import Spec.Sgr.
 Import ListNotations.
 Local Open Scope N_scope.
 
@@ -175,3 +181,109 @@ Section Image.
     ++ (match ul with Some c => [ul_name c] | None => [] end)
     ++ map snd (filter (fun p => svg_has_effect e (fst p)) effect_classes).
 End Image.
+
+(* ======================================================================== *)
+(* The expected spans, concretely (documented class names of anstyle-svg:
+   <slot>-<colour>, slot one of fg / bg / underline, colour one of the sixteen
+   names, ansi256-NNN, rgb-RRGGBB; then one class per effect). *)
+
+Definition svg_spec_lit (s : string) : list N := map N_of_ascii (list_ascii_of_string s).
+Local Notation "'T' s" := (ltac:(let v := eval vm_compute in (svg_spec_lit s%string) in exact v)) (at level 0, s at level 0, only parsing).
+
+Definition svg_spec_ansi_names : list (list N) :=
+  [T"black"; T"red"; T"green"; T"yellow"; T"blue"; T"magenta"; T"cyan"; T"white";
+   T"bright-black"; T"bright-red"; T"bright-green"; T"bright-yellow"; T"bright-blue"; T"bright-magenta"; T"bright-cyan"; T"bright-white"].
+
+Definition svg_spec_hexd (d : N) : N := if d <? 10 then 48 + d else 55 + d.
+Definition svg_spec_hex2 (b : N) : list N := [svg_spec_hexd (b / 16); svg_spec_hexd (b mod 16)].
+Definition svg_spec_dec3 (i : N) : list N := [48 + i / 100; 48 + (i / 10) mod 10; 48 + i mod 10].
+
+Definition svg_spec_colour_name (slot : list N) (c : colour) : list N :=
+  match c with
+  | CAnsi a => slot ++ T"-" ++ nth (N.to_nat a) svg_spec_ansi_names []
+  | CIdx i => slot ++ T"-ansi256-" ++ svg_spec_dec3 i
+  | CRgb r g b => slot ++ T"-rgb-" ++ svg_spec_hex2 r ++ svg_spec_hex2 g ++ svg_spec_hex2 b
+  end.
+
+(* (effect of Spec/Sgr, class) in the documented order; INVERT and BLINK have none *)
+Definition svg_spec_effect_table : list (N * list N) :=
+  [(UNDERLINE, T"underline"); (DOUBLE_UNDERLINE, T"double-underline"); (CURLY_UNDERLINE, T"curly-underline");
+   (DOTTED_UNDERLINE, T"dotted-underline"); (DASHED_UNDERLINE, T"dashed-underline"); (STRIKETHROUGH, T"strikethrough");
+   (BOLD, T"bold"); (ITALIC, T"italic"); (DIMMED, T"dimmed"); (HIDDEN, T"hidden")].
+
+(* the colours a text is drawn with: INVERT swaps foreground and background, an
+   unset one standing for the configured default *)
+Definition svg_spec_drawn_fg (dfg dbg : colour) (s : sstyle) : option colour :=
+  if N.testbit (s_eff s) INVERT then Some (match s_bg s with Some c => c | None => dbg end) else s_fg s.
+Definition svg_spec_drawn_bg (dfg dbg : colour) (s : sstyle) : option colour :=
+  if N.testbit (s_eff s) INVERT then Some (match s_fg s with Some c => c | None => dfg end) else s_bg s.
+
+Definition svg_spec_fg_classes (dfg dbg : colour) (s : sstyle) : list (list N) :=
+  (match svg_spec_drawn_fg dfg dbg s with Some c => [svg_spec_colour_name (T"fg") c] | None => [] end)
+  ++ (match s_ul s with Some c => [svg_spec_colour_name (T"underline") c] | None => [] end)
+  ++ map snd (filter (fun p => N.testbit (s_eff s) (fst p)) svg_spec_effect_table).
+
+Definition svg_spec_bg_class (dfg dbg : colour) (s : sstyle) : option (list N) :=
+  match svg_spec_drawn_bg dfg dbg s with Some c => Some (svg_spec_colour_name (T"bg") c) | None => None end.
+
+(* a piece of a line: ((foreground classes, background class), text) *)
+Definition svg_piece : Set := ((list (list N) * option (list N)) * list N)%type.
+
+Fixpoint svg_lists_eqb (a b : list N) : bool :=
+  match a, b with
+  | [], [] => true
+  | x :: a', y :: b' => (x =? y) && svg_lists_eqb a' b'
+  | _, _ => false
+  end.
+Fixpoint svg_classes_eqb (a b : list (list N)) : bool :=
+  match a, b with
+  | [], [] => true
+  | x :: a', y :: b' => svg_lists_eqb x y && svg_classes_eqb a' b'
+  | _, _ => false
+  end.
+Definition svg_key_eqb (a b : list (list N) * option (list N)) : bool :=
+  svg_classes_eqb (fst a) (fst b)
+  && match snd a, snd b with Some x, Some y => svg_lists_eqb x y | None, None => true | _, _ => false end.
+
+(* neighbours that look the same are one piece (how the text is cut into spans is
+   not part of the property) *)
+Fixpoint svg_merge_pieces (l : list svg_piece) : list svg_piece :=
+  match l with
+  | [] => []
+  | (k, t) :: rest =>
+      match svg_merge_pieces rest with
+      | (k', t') :: rest' => if svg_key_eqb k k' then (k, t ++ t') :: rest' else (k, t) :: (k', t') :: rest'
+      | [] => [(k, t)]
+      end
+  end.
+
+(* the styled characters of the runs *)
+Definition svg_spec_chars (runs : list (sstyle * list N)) : list (sstyle * N) :=
+  flat_map (fun r => map (fun c => (fst r, c)) (snd r)) runs.
+
+(* one CR at the end dropped, on styled characters *)
+Fixpoint svg_spec_drop_cr (l : list (sstyle * N)) : list (sstyle * N) :=
+  match l with
+  | [] => []
+  | x :: r => match r with
+              | [] => if snd x =? 13 then [] else [x]
+              | _ :: _ => x :: svg_spec_drop_cr r
+              end
+  end.
+
+(* as svg_split_acc, on styled characters *)
+Fixpoint svg_spec_split (cur l : list (sstyle * N)) : list (list (sstyle * N)) :=
+  match l with
+  | [] => [cur]
+  | x :: r => if snd x =? 10 then svg_spec_drop_cr cur :: svg_spec_split [] r else svg_spec_split (cur ++ [x]) r
+  end.
+
+Definition svg_spec_row (dfg dbg : colour) (line : list (sstyle * N)) : list svg_piece :=
+  svg_merge_pieces (map (fun x => ((svg_spec_fg_classes dfg dbg (fst x), svg_spec_bg_class dfg dbg (fst x)), [snd x])) line).
+
+(* the expected rows of the rendering of these runs under these defaults *)
+Definition svg_spec_rows (dfg dbg : colour) (runs : list (sstyle * list N)) : list (list svg_piece) :=
+  match svg_spec_chars runs with
+  | [] => []
+  | l => map (svg_spec_row dfg dbg) (svg_spec_split [] l)
+  end.
